@@ -102,6 +102,12 @@ def main():
                 props = m.get("props") or [m["property"]]
                 if args.property and kind == "benign":
                     props = [args.property]
+                if args.property and kind == "seeded":
+                    # thorough tier of one property: only that property's check, and only its own rules are expected
+                    props = [args.property]
+                    m = dict(m, expect=[e for e in (m.get("expect") or []) if e.startswith(args.property + ".")])
+                    if not m["expect"]:
+                        continue
                 res = run_checks(wt, props)
                 fired = sorted({r for pid in res for r in res[pid][1]})
                 broken = [pid for pid in res if res[pid][0] not in (0, 1) or "rule=engine" in res[pid][2]]
@@ -111,7 +117,10 @@ def main():
                     exp = m.get("expect") or []
                     if isinstance(exp, str):
                         exp = [exp]
-                    if exp:
+                    if exp and kind == "seeded":
+                        # a seeded change counts as detected when at least one of the rules recorded for it still reports it
+                        ok = any(any(f == e or f.startswith(e) for f in fired) for e in exp) and not broken
+                    elif exp:
                         ok = all(any(f == e or f.startswith(e) for f in fired) for e in exp) and not broken
                     else:
                         ok = (not fired) if m.get("expect_missed") else bool(fired)
